@@ -32,6 +32,7 @@ CONSTANTS Streams,     \* stream ids
           InitWin,     \* initial stream window (units)
           ConnWin,     \* initial connection window (units)
           MaxCredit,   \* total extra credit the client may grant (units)
+          Faults,      \* subset of {"rst", "close"}: what else the client may do
           Dev
 
 HW == 2
@@ -194,6 +195,7 @@ WindowUpdateConn(n) ==
     /\ UNCHANGED <<apc, left, buf, pausedEv, emptyEv, inTree, spc, swin, rst, closed, sent, ends>>
 
 Reset(s) ==
+    /\ "rst" \in Faults
     /\ ~closed /\ ~rst[s] /\ ends[s] = 0
     /\ rst' = [rst EXCEPT ![s] = TRUE]
     /\ IF "reset_no_buffer_release" \in Dev \/ ~buf[s].exists
@@ -206,6 +208,7 @@ Reset(s) ==
     /\ UNCHANGED <<apc, left, inTree, spc, swin, cwin, credit, closed, sent, ends>>
 
 ConnClose ==
+    /\ "close" \in Faults
     /\ ~closed
     /\ closed' = TRUE
     /\ IF "close_no_buffer_release" \in Dev
